@@ -41,3 +41,12 @@ reg('C03', engine='llsym',
          'CPython contracts in vf/pystubs.py. Not covered: argument routing inside generated wrappers, non-int '
          'initializers, the _cffi_to_c_int macro for typedef-ed types.',
     technique='symbolic execution of LLVM IR, SMT (z3 bit-vectors), counterexample replay on the real build')
+
+reg('C17', engine='llsym',
+    text='Bounded symbolic execution of cdata_richcompare/cdata_hash/convert_to_object with symbolic type flags, '
+         'addresses and primitive bytes: pointer-like comparisons equal unsigned address comparison for all six '
+         'operators, mixed comparisons return NotImplemented, primitive cdata delegate to PyObject_RichCompare / '
+         'PyObject_Hash with exactly the converted value, pointer hashes are a function of the address.',
+    note='Trusted: clang IR, llsym semantics, CPython contracts (PyObject_RichCompare/Hash uninterpreted). '
+         'long double/complex/wide-char primitives not covered.',
+    technique='symbolic execution of LLVM IR, SMT (z3 bit-vectors + FP + uninterpreted functions)')
